@@ -199,6 +199,51 @@ def run(ctx):
                                         experimental={"x-feature": {"on": True}})
             hs.append(ProtocolHandler(ServerInfo(name="s-full", version="2.0", title="A Titled Server"), full))
             hs.append(MCPServer("s-caps", "3", capabilities=full).protocol_handler)
+            # ... and a server whose session store is the application's own: a subclass of the exported interface that
+            # implements its abstract methods and nothing else
+            import time as _time
+            from chuk_mcp.server.session.base import BaseSessionManager, SessionInfo
+
+            class OwnStore(BaseSessionManager):
+                def __init__(self):
+                    self._s = {}
+
+                def create_session(self, client_info, protocol_version, metadata=None):
+                    sid = self.generate_session_id()
+                    now = _time.time()
+                    self._s[sid] = SessionInfo(session_id=sid, client_info=client_info, protocol_version=protocol_version,
+                                               created_at=now, last_activity=now, metadata=metadata or {})
+                    return sid
+
+                def get_session(self, session_id):
+                    return self._s.get(session_id)
+
+                def update_activity(self, session_id):
+                    if session_id in self._s:
+                        self._s[session_id].last_activity = _time.time()
+                        return True
+                    return False
+
+                def cleanup_expired(self, max_age=3600):
+                    now = _time.time()
+                    old = [k for k, v in self._s.items() if now - v.last_activity > max_age]
+                    for k in old:
+                        del self._s[k]
+                    return len(old)
+
+                def list_sessions(self):
+                    return dict(self._s)
+
+                def delete_session(self, session_id):
+                    return self._s.pop(session_id, None) is not None
+
+                def clear_all_sessions(self):       # (the harness's own housekeeping between batches)
+                    n = len(self._s)
+                    self._s.clear()
+                    return n
+            own = MCPServer("s-own-store").protocol_handler
+            own.session_manager = OwnStore()
+            hs.append(own)
         except Exception as e:  # noqa
             ctx.notes.append(f"configured servers could not be built: {e!r}")
         return hs
